@@ -44,6 +44,7 @@ from enum import Enum
 
 from psyclone.core import AccessType
 from psyclone.psyir.nodes.call import Call
+from psyclone.psyir.nodes.codeblock import CodeBlock
 from psyclone.psyir.nodes.datanode import DataNode
 from psyclone.psyir.nodes.literal import Literal
 from psyclone.psyir.nodes.reference import Reference
@@ -929,6 +930,11 @@ class IntrinsicCall(Call):
                 for indices in indices_list:
                     for idx in indices:
                         idx.reference_accesses(var_accesses)
+            elif self.arguments and isinstance(self.arguments[0], CodeBlock):
+                # The subscripts (or sub-string bounds) of an inquired object
+                # that PSyclone could not represent cannot be separated from
+                # the object itself: the CodeBlock is visited as usual.
+                self.arguments[0].reference_accesses(var_accesses)
         else:
             arguments = self.arguments
         # An intrinsic *function* never modifies its arguments. An intrinsic
